@@ -10,7 +10,7 @@ CONFIG = {
         KERNEL,
         TRANSLATOR + " (TokensGen.v, UnicodeGen.v as for C11: token enumeration, operators, switch arms, panic( sites incl. fmt.go diffFile, unicode tables)",
         CORR, HARNESS,
-        "modelled, not verified: strings.Split/Join, the Go slice expression lines[from:to] (bounds as in the language spec, cap = len for the result of strings.Split), string comparison, []rune conversion and UTF-8 encoding of the formatter's text; the application of TextEdits by an LSP client is modelled as replacement of whole lines (character 0 ranges), genlsp's mapping is compared on every case",
+        "modelled, not verified: strings.Split/Join, the Go slice expression lines[from:to] (bounds as in the language spec, cap = len for the result of strings.Split), string comparison, []rune conversion and UTF-8 encoding of the formatter's text; the application of TextEdits by an LSP client is modelled as replacement of whole lines (character 0 ranges), genlsp/format.go (FmtDiff -> TextEdit{(From,0),(To,0),NewText} with uint32 casts) is NOT in the Coq model: the theorems are about FmtDiffs' edit list, and the harness's Go oracle compares genlsp's TextEdits with that list on every case",
         "add-only hooks: internal/bcl/internal/parser/verif_export.go, internal/bcl/genlsp/verif_export.go, internal/bcl/verifbcl, lib/verifshim/bcl (build tag verif)",
     ],
     "assumptions": [
